@@ -240,6 +240,8 @@ impl IndexerHandle {
         let mode = IteratorMode::From(from_key.as_ref(), direction);
         let snapshot = self.store.inner().snapshot();
         let mut iter = TimeoutIterator::new(snapshot.iterator(mode).skip(skip), self.timeout_limit);
+        #[cfg(feature = "verif-hooks")]
+        verif_hook::fire_after_snapshot();
 
         let mut last_key = Vec::new();
         let pool = self
@@ -460,6 +462,8 @@ impl IndexerHandle {
         let mode = IteratorMode::From(from_key.as_ref(), direction);
         let snapshot = self.store.inner().snapshot();
         let mut iter = TimeoutIterator::new(snapshot.iterator(mode).skip(skip), self.timeout_limit);
+        #[cfg(feature = "verif-hooks")]
+        verif_hook::fire_after_snapshot();
 
         if search_key.group_by_transaction.unwrap_or_default() {
             let mut tx_with_cells: Vec<IndexerTxWithCells> = Vec::new();
@@ -718,6 +722,8 @@ impl IndexerHandle {
         let mode = IteratorMode::From(from_key.as_ref(), direction);
         let snapshot = self.store.inner().snapshot();
         let mut iter = TimeoutIterator::new(snapshot.iterator(mode).skip(skip), self.timeout_limit);
+        #[cfg(feature = "verif-hooks")]
+        verif_hook::fire_after_snapshot();
         let pool = self
             .pool
             .as_ref()
@@ -850,6 +856,49 @@ impl IndexerHandle {
                 )
                 .into(),
             }))
+        }
+    }
+}
+
+/// verif-hooks: a one-shot, thread-local callback which `get_cells`, `get_transactions` and
+/// `get_cells_capacity` fire right after they have taken their RocksDB snapshot and created the
+/// iterator over it (a test can commit an append / rollback between the snapshot and the rest of
+/// the handler, deterministically and on one thread). Nothing fires unless a callback was set.
+#[cfg(feature = "verif-hooks")]
+pub mod verif_hook {
+    use std::cell::RefCell;
+    thread_local! {
+        static AFTER_SNAPSHOT: RefCell<Option<Box<dyn FnOnce()>>> = const { RefCell::new(None) };
+    }
+    /// the next handler call of THIS thread runs `f` once, right after taking its snapshot
+    pub fn set_after_snapshot(f: Box<dyn FnOnce()>) {
+        AFTER_SNAPSHOT.with(|h| *h.borrow_mut() = Some(f));
+    }
+    /// drops a callback that did not fire; answers whether there was one
+    pub fn clear_after_snapshot() -> bool {
+        AFTER_SNAPSHOT.with(|h| h.borrow_mut().take().is_some())
+    }
+    pub(crate) fn fire_after_snapshot() {
+        let f = AFTER_SNAPSHOT.with(|h| h.borrow_mut().take());
+        if let Some(f) = f {
+            f()
+        }
+    }
+}
+
+#[cfg(feature = "verif-hooks")]
+impl IndexerHandle {
+    /// verif-hooks: a handle over an explicit store WITH the given tx-pool overlay
+    pub(crate) fn verif_new_with_pool(
+        store: RocksdbStore,
+        pool: Arc<RwLock<Pool>>,
+        request_limit: usize,
+    ) -> Self {
+        IndexerHandle {
+            store,
+            pool: Some(pool),
+            request_limit,
+            timeout_limit: Duration::from_secs(3600),
         }
     }
 }
